@@ -213,6 +213,37 @@ def ym_routes(cal_ord, day):
             pass
 
 
+def zi_routes(name, s_ns, e_ns, wall, sav):
+    """one ZoneInterval by the constructor and as the result of _with_start / _with_end applied to intervals whose
+    bound really moves (that is how a zone derives the first interval of its recurring tail), chained, and as
+    intervals handed out by a SingleTransitionDateTimeZone"""
+    P = _P()
+    from pyoda_time.time_zones import ZoneInterval
+
+    def I(ns):
+        return P.Instant._ctor(days=ns // NPD, nano_of_day=ns % NPD)
+    w, sv = P.Offset.from_seconds(wall), P.Offset.from_seconds(sav)
+    base = ZoneInterval(name=name, start=I(s_ns), end=I(e_ns), wall_offset=w, savings=sv)
+    yield "ctor", base
+    for d in (1, NPD, -NPD, 12345678901234):
+        if s_ns + d < e_ns:
+            yield f"_with_start from start{d:+d}", ZoneInterval(name=name, start=I(s_ns + d), end=I(e_ns), wall_offset=w, savings=sv)._with_start(I(s_ns))
+        if e_ns + d > s_ns:
+            yield f"_with_end from end{d:+d}", ZoneInterval(name=name, start=I(s_ns), end=I(e_ns + d), wall_offset=w, savings=sv)._with_end(I(e_ns))
+    mid = (s_ns + e_ns) // 2
+    yield "chained", ZoneInterval(name=name, start=I(mid), end=I(mid + 1), wall_offset=w, savings=sv)._with_end(I(e_ns))._with_start(I(s_ns))
+    yield "identity _with_start", base._with_start(I(s_ns))
+    try:
+        from pyoda_time.testing.time_zones import SingleTransitionDateTimeZone
+        z = SingleTransitionDateTimeZone(I(e_ns), P.Offset.from_seconds(wall), P.Offset.from_seconds(0))
+        early = z.early_interval
+        if early.wall_offset == w:
+            yield "zone-made early interval with its start moved", early._with_start(I(s_ns))._with_end(I(e_ns)) if False else \
+                ZoneInterval(name=name, start=early._raw_start, end=I(e_ns), wall_offset=w, savings=sv)._with_start(I(s_ns))
+    except Exception:  # noqa: BLE001
+        pass
+
+
 def _derived_values(kind, v):
     """values built from a date: they must be equal whenever the dates are"""
     P = _P()
@@ -242,7 +273,7 @@ def _check_group(kind, key, routes):
             pass
         if hasattr(v, "compare_to") and v.compare_to(v0) != 0:
             return {"key": f"{kind}-route-dependent-order", "what": f"{kind} {key}: compare_to between routes '{name}' and '{n0}' is {v.compare_to(v0)}"}
-        if (v < v0) or (v > v0) or not (v <= v0) or not (v >= v0):
+        if kind != "zoneinterval" and ((v < v0) or (v > v0) or not (v <= v0) or not (v >= v0)):
             return {"key": f"{kind}-route-dependent-order", "what": f"{kind} {key}: ordering operators separate routes '{name}' and '{n0}'"}
         for (dn, dv), (_, d0) in zip(_derived_values(kind, v), _derived_values(kind, v0)):
             if not (dv == d0) or hash(dv) != hash(d0):
@@ -263,6 +294,8 @@ def case_fn(case):
         return _check_group(kind, f"{case[1]} ns", instant_routes(case[1]))
     if kind == "duration":
         return _check_group(kind, f"{case[1]} ns", duration_routes(case[1]))
+    if kind == "zi":
+        return _check_group("zoneinterval", f"{case[1]} [{case[2]},{case[3]}) {case[4]} {case[5]}", zi_routes(*case[1:]))
     if kind == "ld":
         return _check_group("localdate", f"cal {case[1]} day {case[2]}", ld_routes(case[1], case[2]))
     if kind == "ym":
@@ -284,7 +317,11 @@ def gen_cases(rng, n):
             nod = rng.randrange(86400) * NPS
         else:
             nod = rng.randrange(NPD)
-        if r < 0.25:
+        if r < 0.06:
+            a = rng.randint(-10**18, 10**18)
+            out.append(("zi", rng.choice(["A", "BST", "x y"]), a, a + rng.choice([1, 2, NPD, 180 * NPD, rng.randint(3, 10**17)]),
+                        rng.choice([0, 3600, -18000, 64800]), rng.choice([0, 3600, 1800])))
+        elif r < 0.25:
             o = rng.choice([0, 0, 1, 2, 2, 5, 3, 4, 6, 14])
             # around year 1 / year 0 / negative years of the Gregorian-like calendars, and anywhere
             day = rng.choice([-719162 + rng.randint(-1500, 800), -719162 - rng.randint(0, 3000000), rng.randint(-200000, 200000)])
